@@ -205,4 +205,30 @@ example : check ⟨2, [
     ⟨"f", 1, 4, blk [.load 1 0 .elem, .call 2 0 [1], .ret 2], .pure, ⟨[], true, .any⟩⟩]⟩
     = false := by decide
 
+/-- heap with the source object 0 (attribute 1 -> list 1) and its list 1 -/
+def exHeap : Heap := ⟨2, fun i k => if i = 0 ∧ k = 1 then .ref 1 else .scalar⟩
+
+/-- The hypotheses of `copy_independent` are satisfiable: `b = Copy(a); b.set(v)` is a history of the
+program {sharing constructor, rebinding mutator}. -/
+example : ∃ h', Run ⟨2, [exShare, exRebind]⟩ [(0, [.ref 2, .ref 0]), (1, [.ref 2, .scalar])] exHeap.alloc h' := by
+  have e1 := Exec.seqN (P := ⟨2, [exShare, exRebind]⟩) (h := exHeap.alloc) (e := entryEnv 2 [.ref 2, .ref 0])
+    (Exec.load (x := 2) (y := 1) (s := .field 1) (id := 0) (k := 1) rfl rfl)
+    (Exec.store (x := 0) (s := .field 1) (y := 2) (id := 2) (k := 1) rfl rfl)
+  have e2 := Exec.seqN (P := ⟨2, [exShare, exRebind]⟩) (h := exHeap.alloc.write 2 1 (.ref 1))
+      (e := entryEnv 2 [.ref 2, .scalar]) (Exec.new (x := 2))
+    (Exec.seqN (Exec.store (x := 0) (s := .field 1) (y := 2) (id := 2) (k := 1) rfl rfl)
+      (Exec.seqN (Exec.load (x := 3) (y := 0) (s := .field 1) (id := 2) (k := 1) rfl rfl)
+        (Exec.store (x := 3) (s := .elem) (y := 1) (id := 3) (k := 0) rfl trivial)))
+  refine ⟨_, Run.cons (fd := exShare) rfl ?_ e1 (Run.cons (fd := exRebind) rfl ?_ e2 Run.nil)⟩
+  · intro i t ht
+    match i with
+    | 0 => cases ht; decide
+    | 1 => cases ht; decide
+    | (n+2) => simp at ht
+  · intro i t ht
+    match i with
+    | 0 => cases ht; decide
+    | 1 => simp at ht
+    | (n+2) => simp at ht
+
 end Pymeeus.C20
